@@ -331,5 +331,5 @@ def parts(tier):
             cases=1600 if q else 40000, batch=200,
         ),
         core.Part('e2e', exec_e2e, strategy=_e2e_case,
-                  cases=240 if q else 6000, batch=40),
+                  cases=200 if q else 6000, batch=40),
     ]
